@@ -174,24 +174,37 @@ func regexpNext(sb *strings.Builder, sl *stringLexer, mode Mode) error {
 			if sl.peekNext() != '(' {
 				break
 			}
-			start := sl.i - 1       // position of the operator
-			sb.WriteRune(sl.next()) // (
+			start := sl.i - 1 // position of the operator
+			// Build the group separately; it is only emitted once
+			// its closing parenthesis has been found.
+			var gsb strings.Builder
+			gsb.WriteRune(sl.next()) // (
+			closed := false
 		nestedLoop:
 			for {
 				switch sl.peekNext() {
 				case ')':
+					closed = true
 					break nestedLoop
 				case '|':
 					// extended operators support a list of "or" separated expressions
-					sb.WriteRune(sl.next())
+					gsb.WriteRune(sl.next())
 					continue
 				}
-				if err := regexpNext(sb, sl, mode); err == io.EOF {
-					break
+				if err := regexpNext(&gsb, sl, mode); err == io.EOF {
+					break nestedLoop
 				} else if err != nil {
 					return err
 				}
 			}
+			if !closed {
+				// Like Bash, when the parenthesis is never closed the rest
+				// of the pattern is compared as a plain string.
+				sb.WriteString(regexp.QuoteMeta(sl.s[start:]))
+				sl.i = len(sl.s)
+				return nil
+			}
+			sb.WriteString(gsb.String())
 			sb.WriteRune(sl.next()) // )
 			if op == '!' {
 				return &NegExtGlobError{Groups: []NegExtGlobGroup{{Start: start, End: sl.i}}}
